@@ -580,7 +580,7 @@ def _phase_hooks():
     return hooks
 
 
-@contract(CV.construct_volume_t4, props=['C01', 'C05', 'C12', 'C04', 'C06'], name='ConstructVolumeT4.construct_volume_t4[phases]')
+@contract(CV.construct_volume_t4, props=['C01', 'C05', 'C12', 'C04', 'C06', 'C08'], name='ConstructVolumeT4.construct_volume_t4[phases]')
 class _Phases:
     """The orchestration of the volume conversion, every phase replaced by its contract: every TRCL is applied
     first, to the geometry of the cell that carries it; then complements are eliminated in every cell, on
@@ -598,7 +598,7 @@ class _Phases:
 
     def call(inline):
         T = (1.0, 0.0, 0.0, 1.0, 0.0, 0.0, 0.0, 1.0, 0.0, 0.0, 0.0, 1.0)
-        g = {k: OpaqueNode(tag=f'g{k}', patently_empty=(k == 6)) for k in (1, 2, 3, 4, 5, 6, 20, 30)}
+        g = {k: OpaqueNode(tag=f'g{k}', patently_empty=(k == 6)) for k in (1, 2, 3, 4, 5, 6, 20, 30, 99)}
         cells = {
             1: CellMCNP('1', '-1.0', g[1], 1.0, 0, None, (), None, [], []),                  # plain
             2: CellMCNP('1', '-1.0', g[2], 1.0, 0, None, (), None, [T], []),                 # with TRCL
@@ -608,9 +608,10 @@ class _Phases:
             6: CellMCNP('1', '-1.0', g[6], 1.0, 0, None, (), None, [], []),                  # patently empty
             20: CellMCNP('2', '-2.0', g[20], 1.0, 2, None, (), None, [], []),                # in universe 2
             30: CellMCNP('3', '-3.0', g[30], 1.0, 2, LatticeSpecStub(), (), 1, [], []),      # lattice cell in universe 2
+            99: CellMCNP('0', None, g[99], 0.0, 0, None, (), None, [], []),                  # outside world, highest number
         }
         _PHASE_STATE['cells'] = cells
-        _PHASE_STATE['skipped'] = [4, 5]
+        _PHASE_STATE['skipped'] = [4, 5, 99]
         coll = _StubCollection()
         res = CV.construct_volume_t4(None, {}, None, coll, CollectionDictStub(), inline[0], inline[1], 1.0)
         return res, g, coll
@@ -631,7 +632,7 @@ class _Phases:
             all((len(x['args'][0]) == 1) == (x['args'][1] is g[2]) for x in trcl) and
             sum(1 for x in trcl if x['args'][0]) == 1)
         compl = [x['args'][0] for x in c if x['callee'] == 'pot_complement']
-        yield 'complements-eliminated-in-every-cell', len(compl) == 8 and all(
+        yield 'complements-eliminated-in-every-cell', len(compl) == 9 and all(
             any((a is g[k]) or (isinstance(a, Opaque) and a.facts.get('of') is g[k]) for a in compl) for k in g)
         yield 'complements-see-the-moved-geometry', any(isinstance(a, Opaque) and a.facts.get('stage') == 'trcl' and
                                                         a.facts.get('of') is g[2] for a in compl)
@@ -668,7 +669,12 @@ class _Phases:
         yield 'no-volume-for-anything-else', all(k in keys or k in made.values() for k in dic_vol)
         yield 'helper-planes-fresh-and-numbered', (union_ids[0] != union_ids[1] and all(u not in (5, 9) and u in numbering
                                                                                         for u in union_ids))
-        yield 'skipped-cells-reported', list(skipped) == [4, 5]
+        yield 'skipped-cells-reported', list(skipped) == [4, 5, 99]
+        # numbers generated for pieces and auxiliary volumes never collide with a cell number of the deck, converted or
+        # not (writeT4Geometry leaves out every volume that carries the number of a zero-importance cell)
+        original = {1, 2, 3, 4, 5, 6, 20, 30, 99}
+        generated = (set(mcnp_dict) | set(dic_vol)) - original
+        yield 'generated-numbers-exceed-every-cell-number', bool(generated) and min(generated) > 99
 
 
 class LatticeSpecStub:
